@@ -1,18 +1,105 @@
 (* C14 — everything the tool writes is well-formed PNA that an independent reader decodes.
-   Model: coq/Model/Wf.v (strict recogniser wf_archive / wf_parts and strict decoder, written from
-   the format description) beside the tolerant reader model of Archive.v / Entry.v.
-   Proved here: on everything the strict decoder accepts, the library's tolerant parser returns the
-   same entries (entry level, and for the whole chunk sequence of a part chain).
-   Partial / outside:
-   * strict_agrees is proved at the level of the chunk sequence (`bodies`): relating the tolerant
-     byte-level iteration (Archive.next_item_loop with its fuel) to `bodies` is not done;
-   * writer_wf (forall entries: wf_archive (write_raw_archive 0 es)) is not proved in general: the
-     closed instances below cover ser_normal (plain, rich metadata, encrypted) and ser_solid, and the
-     check runs wf_archive on every archive the library and the CLI write;
-   * the compressor/cipher pipeline is not in this model: its output is decoded by the independent
-     reference reader (harness/src/refdec.rs) on every archive of the run. *)
-From PNA Require Import Base Codec Chunk Archive Entry Wf WfFacts.
+   Model: coq/Model/Wf.v (strict recogniser wf_archive / wf_parts / wf_part and strict decoder, written
+   from the format description) beside the tolerant reader model of Archive.v / Entry.v, the
+   chunk-level writer model (Archive.write_raw_archive of Entry.ser_entry) and the splitter model
+   (Split.write_split).
+   Proved here, for ALL inputs (no closed instances):
+   * writer_wf: for every list of `writable` entries (WfWriterFacts.writable: what the recogniser
+     genuinely needs — header version 0.0, a valid relative UTF-8 name, PHSF of PHC shape iff
+     encrypted, IV + whole CBC blocks, payloads < 2^32, unknown chunks ancillary with a valid type,
+     metadata in range) the written archive is accepted and strictly decoded to these entries
+     (up to dropped empty FDAT payloads); also as part number n; `writable` is satisfiable and each
+     kind of condition is needed (negative examples);
+   * strict_agrees at byte level: whatever the recogniser accepts — one file or a part chain — the
+     library's tolerant byte-level readers (stream and slice reader with their fuel, and the
+     part-chaining reader read_parts) read to the end without error and deliver exactly the strict
+     decoder's entries;
+   * split_wf: the part files of every successful write_split of writable entries are accepted as a
+     part chain, decode to the same entries up to where the data streams are cut, and are read back
+     by read_parts.
+   Partial / outside: see the end of the file. *)
+From PNA Require Import Base Codec Chunk Archive Entry Wf WfFacts ArchiveFacts EntryFacts WfWriterFacts WfAgreeFacts WfSplitFacts.
+From PNA Require Split.
 
+(* ---- writer_wf: the chunk-level writer ------------------------------------------------------------ *)
+Theorem C14_writer_wf :
+  forall es : list read_entry, Forall writable es ->
+  wf_archive (write_raw_archive 0 (map ser_entry es)) = true /\
+  strict_decode (write_raw_archive 0 (map ser_entry es)) = Ok (map normalize_entry es).
+Proof. exact writer_wf. Qed.
+Check C14_writer_wf :
+  forall es : list read_entry, Forall writable es ->
+  wf_archive (write_raw_archive 0 (map ser_entry es)) = true /\
+  strict_decode (write_raw_archive 0 (map ser_entry es)) = Ok (map normalize_entry es).
+Print Assumptions C14_writer_wf.
+
+Theorem C14_writer_wf_part :
+  forall (num : N) (es : list read_entry), num < 2 ^ 32 -> Forall writable es ->
+  wf_part num (write_raw_archive num (map ser_entry es)) = true.
+Proof. exact writer_wf_part. Qed.
+Check C14_writer_wf_part :
+  forall (num : N) (es : list read_entry), num < 2 ^ 32 -> Forall writable es ->
+  wf_part num (write_raw_archive num (map ser_entry es)) = true.
+Print Assumptions C14_writer_wf_part.
+
+Theorem C14_writer_read_back :
+  forall es : list read_entry, Forall writable es ->
+  entries read_chunk_stream (write_raw_archive 0 (map ser_entry es)) = Ok (map normalize_entry es, FinOk) /\
+  entries read_chunk_slice (write_raw_archive 0 (map ser_entry es)) = Ok (map normalize_entry es, FinOk).
+Proof. exact written_read_back. Qed.
+Check C14_writer_read_back :
+  forall es : list read_entry, Forall writable es ->
+  entries read_chunk_stream (write_raw_archive 0 (map ser_entry es)) = Ok (map normalize_entry es, FinOk) /\
+  entries read_chunk_slice (write_raw_archive 0 (map ser_entry es)) = Ok (map normalize_entry es, FinOk).
+Print Assumptions C14_writer_read_back.
+
+Theorem C14_inner_stream_written :
+  forall ns : list normal_entry, Forall writable_normal ns ->
+  inner_entries (ser_chunks (concat (map ser_normal ns))) = SOk (map (fun n => RNormal (normalize n)) ns).
+Proof. exact inner_entries_written. Qed.
+Check C14_inner_stream_written :
+  forall ns : list normal_entry, Forall writable_normal ns ->
+  inner_entries (ser_chunks (concat (map ser_normal ns))) = SOk (map (fun n => RNormal (normalize n)) ns).
+Print Assumptions C14_inner_stream_written.
+
+Theorem C14_writable_satisfiable :
+  Forall writable [RNormal ex_plain; RNormal ex_enc; RSolid ex_solid].
+Proof. exact ex_writable. Qed.
+Check C14_writable_satisfiable :
+  Forall writable [RNormal ex_plain; RNormal ex_enc; RSolid ex_solid].
+Print Assumptions C14_writable_satisfiable.
+
+Theorem C14_not_writable_rejected :
+  wf_archive (write_raw_archive 0 [ser_normal (with_extra_chunks ex_enc [mk (lit "QQQQ") []])]) = false /\
+  wf_archive (write_raw_archive 0 [ser_normal
+     {| n_hdr := n_hdr ex_enc; n_phsf := None; n_extra := []; n_data := n_data ex_enc; n_meta := n_meta ex_enc; n_xattrs := [] |}]) = false /\
+  wf_archive (write_raw_archive 0 [ser_normal
+     {| n_hdr := n_hdr ex_enc; n_phsf := n_phsf ex_enc; n_extra := []; n_data := [repeat x07 16; repeat x09 31];
+        n_meta := n_meta ex_enc; n_xattrs := [] |}]) = false /\
+  wf_archive (write_raw_archive 0 [ser_normal
+     {| n_hdr := {| f_major := 0; f_minor := 0; f_kind := KFile; f_comp := CNo; f_enc := ENo; f_mode := MCbc; f_name := lit "../x" |};
+        n_phsf := None; n_extra := []; n_data := []; n_meta := n_meta ex_plain; n_xattrs := [] |}]) = false.
+Proof. exact not_writable_rejected. Qed.
+Check C14_not_writable_rejected :
+  wf_archive (write_raw_archive 0 [ser_normal (with_extra_chunks ex_enc [mk (lit "QQQQ") []])]) = false /\
+  wf_archive (write_raw_archive 0 [ser_normal
+     {| n_hdr := n_hdr ex_enc; n_phsf := None; n_extra := []; n_data := n_data ex_enc; n_meta := n_meta ex_enc; n_xattrs := [] |}]) = false /\
+  wf_archive (write_raw_archive 0 [ser_normal
+     {| n_hdr := n_hdr ex_enc; n_phsf := n_phsf ex_enc; n_extra := []; n_data := [repeat x07 16; repeat x09 31];
+        n_meta := n_meta ex_enc; n_xattrs := [] |}]) = false /\
+  wf_archive (write_raw_archive 0 [ser_normal
+     {| n_hdr := {| f_major := 0; f_minor := 0; f_kind := KFile; f_comp := CNo; f_enc := ENo; f_mode := MCbc; f_name := lit "../x" |};
+        n_phsf := None; n_extra := []; n_data := []; n_meta := n_meta ex_plain; n_xattrs := [] |}]) = false.
+Print Assumptions C14_not_writable_rejected.
+
+Theorem C14_empty_archive_wf :
+  wf_archive (write_raw_archive 0 []) = true.
+Proof. exact wf_empty_archive. Qed.
+Check C14_empty_archive_wf :
+  wf_archive (write_raw_archive 0 []) = true.
+Print Assumptions C14_empty_archive_wf.
+
+(* ---- strict_agrees: the strict and the tolerant reader -------------------------------------------- *)
 Theorem C14_strict_entry_agrees :
   forall (h : chunk) (body : list chunk) (e : chunk) (x : read_entry),
   (ty_is h FHED = true /\ ty_is e FEND = true) \/ (ty_is h SHED = true /\ ty_is e SEND = true) ->
@@ -26,39 +113,106 @@ Check C14_strict_entry_agrees :
   parse_entry (h :: body ++ [e]) = Ok x.
 Print Assumptions C14_strict_entry_agrees.
 
-Theorem C14_strict_agrees_partial :
+Theorem C14_strict_agrees :
+  forall bs : bytes, wf_archive bs = true ->
+  exists es, strict_decode bs = Ok es /\ entries read_chunk_stream bs = Ok (es, FinOk) /\
+             entries read_chunk_slice bs = Ok (es, FinOk).
+Proof. exact wf_archive_read. Qed.
+Check C14_strict_agrees :
+  forall bs : bytes, wf_archive bs = true ->
+  exists es, strict_decode bs = Ok es /\ entries read_chunk_stream bs = Ok (es, FinOk) /\
+             entries read_chunk_slice bs = Ok (es, FinOk).
+Print Assumptions C14_strict_agrees.
+
+Theorem C14_strict_agrees_decode :
+  forall (bs : bytes) (es : list read_entry), strict_decode bs = Ok es -> entries read_chunk_stream bs = Ok (es, FinOk).
+Proof. exact strict_agrees. Qed.
+Check C14_strict_agrees_decode :
+  forall (bs : bytes) (es : list read_entry), strict_decode bs = Ok es -> entries read_chunk_stream bs = Ok (es, FinOk).
+Print Assumptions C14_strict_agrees_decode.
+
+Theorem C14_strict_agrees_parts :
+  forall parts : list bytes, wf_parts parts = true ->
+  exists es raws, strict_parts parts = SOk es /\ read_parts read_chunk_stream parts = Ok (raws, FinOk) /\
+                  parse_all raws = (es, FinOk).
+Proof. exact wf_parts_read. Qed.
+Check C14_strict_agrees_parts :
+  forall parts : list bytes, wf_parts parts = true ->
+  exists es raws, strict_parts parts = SOk es /\ read_parts read_chunk_stream parts = Ok (raws, FinOk) /\
+                  parse_all raws = (es, FinOk).
+Print Assumptions C14_strict_agrees_parts.
+
+Theorem C14_strict_agrees_parts_slice :
+  forall (parts : list bytes) (es : list read_entry), strict_parts parts = SOk es ->
+  exists raws, read_parts read_chunk_slice parts = Ok (raws, FinOk) /\ parse_all raws = (es, FinOk).
+Proof. exact strict_agrees_parts_slice. Qed.
+Check C14_strict_agrees_parts_slice :
+  forall (parts : list bytes) (es : list read_entry), strict_parts parts = SOk es ->
+  exists raws, read_parts read_chunk_slice parts = Ok (raws, FinOk) /\ parse_all raws = (es, FinOk).
+Print Assumptions C14_strict_agrees_parts_slice.
+
+Theorem C14_strict_agrees_chunks :
   forall (parts : list bytes) (es : list read_entry),
   strict_parts parts = SOk es ->
   exists (cs : list chunk) (groups : list (list chunk)),
     bodies 0 parts = SOk cs /\ cs = concat groups /\
     Forall2 (fun g x => parse_entry g = Ok x) groups es.
 Proof. exact strict_agrees_chunks. Qed.
-Check C14_strict_agrees_partial :
+Check C14_strict_agrees_chunks :
   forall (parts : list bytes) (es : list read_entry),
   strict_parts parts = SOk es ->
   exists (cs : list chunk) (groups : list (list chunk)),
     bodies 0 parts = SOk cs /\ cs = concat groups /\
     Forall2 (fun g x => parse_entry g = Ok x) groups es.
-Print Assumptions C14_strict_agrees_partial.
+Print Assumptions C14_strict_agrees_chunks.
 
-Theorem C14_writer_wf_partial :
-  wf_archive (write_raw_archive 0 [ser_normal ex_plain; ser_normal ex_enc; ser_solid ex_solid]) = true /\
-  strict_decode (write_raw_archive 0 [ser_normal ex_plain; ser_normal ex_enc; ser_solid ex_solid])
-    = Ok [RNormal ex_plain; RNormal ex_enc; RSolid ex_solid] /\
-  entries read_chunk_stream (write_raw_archive 0 [ser_normal ex_plain; ser_normal ex_enc; ser_solid ex_solid])
-    = Ok ([RNormal ex_plain; RNormal ex_enc; RSolid ex_solid], FinOk) /\
-  wf_archive (write_raw_archive 0 [ser_normal (with_extra_chunks ex_enc [mk (lit "QQQQ") []])]) = false.
-Proof. exact writer_wf_examples. Qed.
-Check C14_writer_wf_partial :
-  wf_archive (write_raw_archive 0 [ser_normal ex_plain; ser_normal ex_enc; ser_solid ex_solid]) = true /\
-  strict_decode (write_raw_archive 0 [ser_normal ex_plain; ser_normal ex_enc; ser_solid ex_solid])
-    = Ok [RNormal ex_plain; RNormal ex_enc; RSolid ex_solid] /\
-  entries read_chunk_stream (write_raw_archive 0 [ser_normal ex_plain; ser_normal ex_enc; ser_solid ex_solid])
-    = Ok ([RNormal ex_plain; RNormal ex_enc; RSolid ex_solid], FinOk) /\
-  wf_archive (write_raw_archive 0 [ser_normal (with_extra_chunks ex_enc [mk (lit "QQQQ") []])]) = false.
-Print Assumptions C14_writer_wf_partial.
+(* ---- split_wf: the splitter ------------------------------------------------------------------------ *)
+Theorem C14_split_wf :
+  forall (max : N) (ents : list read_entry) (parts : list Split.pfile), Forall writable ents ->
+  Split.write_split max (map (fun e => map of_c (ser_entry e)) ents) = Ok parts ->
+  wf_parts (map ser_pfile parts) = true /\
+  exists xs', strict_parts (map ser_pfile parts) = SOk xs' /\ Forall2 entry_same (map normalize_entry ents) xs'.
+Proof. exact split_wf. Qed.
+Check C14_split_wf :
+  forall (max : N) (ents : list read_entry) (parts : list Split.pfile), Forall writable ents ->
+  Split.write_split max (map (fun e => map of_c (ser_entry e)) ents) = Ok parts ->
+  wf_parts (map ser_pfile parts) = true /\
+  exists xs', strict_parts (map ser_pfile parts) = SOk xs' /\ Forall2 entry_same (map normalize_entry ents) xs'.
+Print Assumptions C14_split_wf.
 
-Theorem C14_empty_archive_wf : wf_archive (write_raw_archive 0 []) = true.
-Proof. exact wf_empty_archive. Qed.
-Check C14_empty_archive_wf : wf_archive (write_raw_archive 0 []) = true.
-Print Assumptions C14_empty_archive_wf.
+Theorem C14_split_wf_chunks :
+  forall (max : N) (es : list Split.part) (parts : list Split.pfile) (xs : list read_entry),
+  Split.write_split max es = Ok parts ->
+  Forall body_chunk (map to_c (concat es)) -> entries_of (map to_c (concat es)) = SOk xs ->
+  exists xs', strict_parts (map ser_pfile parts) = SOk xs' /\ Forall2 entry_same xs xs'.
+Proof. exact split_wf_chunks. Qed.
+Check C14_split_wf_chunks :
+  forall (max : N) (es : list Split.part) (parts : list Split.pfile) (xs : list read_entry),
+  Split.write_split max es = Ok parts ->
+  Forall body_chunk (map to_c (concat es)) -> entries_of (map to_c (concat es)) = SOk xs ->
+  exists xs', strict_parts (map ser_pfile parts) = SOk xs' /\ Forall2 entry_same xs xs'.
+Print Assumptions C14_split_wf_chunks.
+
+Theorem C14_split_read_back :
+  forall (max : N) (ents : list read_entry) (parts : list Split.pfile), Forall writable ents ->
+  Split.write_split max (map (fun e => map of_c (ser_entry e)) ents) = Ok parts ->
+  exists xs' raws, Forall2 entry_same (map normalize_entry ents) xs' /\
+    read_parts read_chunk_stream (map ser_pfile parts) = Ok (raws, FinOk) /\ parse_all raws = (xs', FinOk).
+Proof. exact split_read_back. Qed.
+Check C14_split_read_back :
+  forall (max : N) (ents : list read_entry) (parts : list Split.pfile), Forall writable ents ->
+  Split.write_split max (map (fun e => map of_c (ser_entry e)) ents) = Ok parts ->
+  exists xs' raws, Forall2 entry_same (map normalize_entry ents) xs' /\
+    read_parts read_chunk_stream (map ser_pfile parts) = Ok (raws, FinOk) /\ parse_all raws = (xs', FinOk).
+Print Assumptions C14_split_read_back.
+
+Theorem C14_split_wf_satisfiable :
+  exists parts,
+  Split.write_split 120 (map (fun e => map of_c (ser_entry e)) [RNormal ex_plain; RNormal ex_enc; RSolid ex_solid]) = Ok parts /\
+  length parts = 12%nat /\ wf_parts (map ser_pfile parts) = true.
+Proof. exact split_wf_ex. Qed.
+Check C14_split_wf_satisfiable :
+  exists parts,
+  Split.write_split 120 (map (fun e => map of_c (ser_entry e)) [RNormal ex_plain; RNormal ex_enc; RSolid ex_solid]) = Ok parts /\
+  length parts = 12%nat /\ wf_parts (map ser_pfile parts) = true.
+Print Assumptions C14_split_wf_satisfiable.
